@@ -19,8 +19,8 @@ Neg(a) == <<-a[1], a[2]>>
 Lt(a, b) == a[1] * b[2] < b[1] * a[2]
 Le(a, b) == a[1] * b[2] <= b[1] * a[2]
 Eq(a, b) == a[1] * b[2] = b[1] * a[2]
-Min(a, b) == IF Le(a, b) THEN a ELSE b
-Max(a, b) == IF Le(a, b) THEN b ELSE a
+RMin(a, b) == IF Le(a, b) THEN a ELSE b
+RMax(a, b) == IF Le(a, b) THEN b ELSE a
 Sq(a) == Mul(a, a)
 IsNeg(a) == a[1] < 0
 =============================================================================
